@@ -16,7 +16,7 @@ func init() {
 		Run:     runC14,
 		NeedSSA: true,
 		Decided: "every goroutine spawn site of non-test code (60 on the pinned tree) verifies in exactly one join class: registered with its owner's WaitGroup whose Close waits (Add/Go before the spawn, Done exactly as often on every path); closes a done channel by defer which Close receives from; holds a mutex to its exit that Close acquires; joined inside its spawner (local WaitGroup, counted channel, watcher on a context cancelled by defer, the lookup's own WaitGroup); or a reviewed per-operation transient whose blocking operations are all classified — a new or re-classed site that verifies nowhere is a violation (R1); " +
-			"each Close signals stop before it waits, waits before it releases resources, and closes every sub-component it owns (R2); channel closes reachable in a Close are once-guarded (R3); the sweeping provider's WaitGroup.Add is under the read lock and behind the closed test while Close closes under the write lock (R4); constructors release on every error return what they acquired, and start their joined goroutine on every success return (R5). Added after the seeded rounds: a transient goroutine's blocking inventory includes the same-package functions it calls directly, unlisted goroutine sites get their join class inferred and verified (R1); workers Close waits for never block on a caller that gave up (R6, shared C20.R2 and C12.R6).",
+			"each Close signals stop before it waits, waits before it releases resources, and closes every sub-component it owns (R2); channel closes reachable in a Close are once-guarded (R3); the sweeping provider's WaitGroup.Add is under the read lock and behind the closed test while Close closes under the write lock (R4); constructors release on every error return what they acquired, and start their joined goroutine on every success return (R5). Added after the seeded rounds: a transient goroutine's blocking inventory includes the same-package functions it calls directly, unlisted goroutine sites get their join class inferred and verified (R1); workers Close waits for never block on a caller that gave up (R6, shared C20.R2 and C12.R6). Round 4: every loop running a clean-up list visits the whole list and calls each non-nil element; a resource released through a clean-up list is registered there before any return can be reached (R5).",
 		NotDecided: "absence of deadlock between Close and in-flight operations in general (R1-R4 give the join structure and the lock/guard idioms that absence rests on); goroutines started inside third-party libraries.",
 	})
 }
